@@ -1261,6 +1261,9 @@ def _run(ctx, env, scratch, downloads, cifar100, sqlite_fd):
     run_scenario(ctx, env, lop, scratch, None, seq, other_split=bool(rng.rand() < 0.5))
 
 
+
 if __name__ == '__main__':
   if len(sys.argv) >= 3 and sys.argv[1] == '--kill-child':
     kill_child(sys.argv[2])
+
+TECHNIQUE += '; configuration shard python -O; connection-loss exception classes with a dead stream afterwards; stderr loss; 16 MiB payloads'
